@@ -518,7 +518,7 @@ where
     where
         K: Eq + std::hash::Hash + Clone,
     {
-        let num = self.next_parse()?;
+        let num: usize = self.next_parse()?;
         let mut out = vec![HashMap::default(); size];
         for _ in 0..num {
             let parts = self.next_split_n(segments + 1)?;
@@ -572,7 +572,7 @@ where
     {
         let default: V = self.next_parse()?;
         let mut out = vec![default; size];
-        let num = self.next_parse()?;
+        let num: usize = self.next_parse()?;
         for _ in 0..num {
             let parts = self.next_split_n(3)?; // this is 3 because we ignore anything beyond the first 2
             let (i, val): (usize, V) = (
